@@ -13,6 +13,8 @@ import os
 
 from . import common
 from . import c13_ram as RAM
+from . import c13_req as REQ
+from . import c13_wsgi as WSGI
 
 PROPERTY = 'C13'
 LEAN_TARGETS = ['CpProofs.C13', 'drv_c13']
@@ -275,6 +277,142 @@ def ram_stream(ctx, variant, n_random, n_window, preempt_bound, compare=True):
 
 
 # ------------------------------------------------------------------------------------------------
+# (c) request-level fault plans
+# ------------------------------------------------------------------------------------------------
+def plan_shape(p):
+    return '%s/%s/%s%s%s' % (p['mode'], 'file' if p['file'] else 'ram', p['out'],
+                             '/stream-' + p['consume'] if p['stream'] else ('/gen' if p['gen'] else ''),
+                             '/regen' if 'regen' in p['acts'] else '')
+
+
+def check_req(ctx, plans, compare=True):
+    plans = [p for p in plans if REQ.well_behaved(p)]
+    lines = [REQ.plan_line(p) for p in plans]
+    model = ctx.model(lines) if compare else None
+    for idx, p in enumerate(plans):
+        r = REQ.run_plan(p)
+        j = ','.join(r['journal']) or '-'
+        ctx.case(p, nontrivial=(':1:' in j), key=lines[idx])
+        ctx.count('req:' + p['mode'])
+        ctx.count('req:backend=' + ('file' if p['file'] else 'ram'))
+        ctx.count('req:outcome=' + p['out'])
+        ctx.count('req:status=' + r['status'])
+        if p['stream']:
+            ctx.count('req:stream-' + p['consume'])
+        if 'regen' in p['acts']:
+            ctx.count('req:regenerate')
+        if p['saveFails']:
+            ctx.count('req:save_fails')
+        if 'B:1' in j:
+            ctx.count('req:locked_while_body_is_sent')
+        shape = plan_shape(p)
+        if r['leaked'] or r['locked_end'] or not j.endswith('E:0:0'):
+            ctx.oracle_fail(p, 'after the request ended (close() called) the session lock is still held: '
+                               'journal %s, held lock objects/files %s, Session.locked=%s  [%s]'
+                            % (j, r['leaked'], r['locked_end'], shape),
+                            'req:lock_not_released:%s:%s' % (p['mode'], 'file' if p['file'] else 'ram'))
+        if model is not None:
+            ctx.compared()
+            mj = model[idx].split(' ')[0][2:]
+            if mj != j:
+                ctx.disagree(p, {'journal': j}, {'journal': mj},
+                             'request-level lock journal (point:Session.locked:held) differs [%s]' % shape)
+
+
+def targeted_plans(rng):
+    """Shapes a subtle change to save/close/_regenerate/_setup would get wrong."""
+    out = []
+    base = {'kind': 'req', 'acts': ['touch'], 'out': 'ok', 'stream': False, 'gen': False, 'genTouch': False,
+            'genRaise': False, 'consume': 'full', 'saveFails': False, 'oer': 'ok',
+            'brb': [], 'bh': [], 'bf': [], 'eer': []}
+    for mode in ('implicit', 'early', 'explicit'):
+        for file in (False, True):
+            acts0 = ['acquire', 'touch'] if mode == 'explicit' else ['touch']
+            b = dict(base, mode=mode, file=file, acts=acts0)
+            out.append(dict(b))                                                     # plain success
+            for o in ('http', 'redirect', 'exc'):
+                out.append(dict(b, out=o))                                          # every outcome
+                out.append(dict(b, out=o, eer=[[rng.choice([10, 30, 55, 70]), False, 'exc']]))
+            out.append(dict(b, saveFails=True))                                     # _save raises
+            out.append(dict(b, saveFails=True, eer=[[30, False, 'exc']]))
+            out.append(dict(b, acts=acts0 + ['regen', 'touch']))                    # id regenerated
+            out.append(dict(b, acts=acts0 + ['regen'], out='exc'))
+            out.append(dict(b, acts=acts0 + ['regen', 'regen', 'touch'], out='http'))
+            for consume in ('full', 'abandon'):
+                s = dict(b, stream=True, gen=True, genTouch=True, consume=consume)
+                out.append(dict(s))                                                 # streamed
+                out.append(dict(s, genRaise=True))
+                out.append(dict(s, saveFails=True))                                 # deferred save raises
+                out.append(dict(s, saveFails=True, eer=[[30, False, 'exc']]))
+                out.append(dict(s, eer=[[10, False, 'exc'], [70, True, 'http']]))
+            out.append(dict(b, gen=True, genTouch=True, genRaise=True))             # collapse_body raises in save
+            out.append(dict(b, bf=[[10, False, 'exc']]))                            # hook before save fails
+            out.append(dict(b, bf=[[70, False, 'http']], eer=[[55, False, 'exc']]))
+            out.append(dict(b, bh=[[70, False, 'exc']], eer=[[10, False, 'exc']]))  # fails after the lock hook
+            out.append(dict(b, brb=[[70, False, 'exc']], eer=[[10, False, 'exc']]))
+            out.append(dict(b, oer='exc'))
+            if mode != 'explicit':
+                out.append(dict(b, acts=['touch', 'release', 'acquire', 'touch']))
+                out.append(dict(b, acts=['release']))
+    return out
+
+
+# ------------------------------------------------------------------------------------------------
+# whole WSGI requests on scheduled threads (oracle only)
+# ------------------------------------------------------------------------------------------------
+def wsgi_oracle(case, toks, obs):
+    bad = []
+
+    def sig(kind):
+        return F20_SIG if obs['orphan_acquire'] else 'wsgi:%s:%s:%s' % (kind, case['mode'], case['where'])
+    if obs['max_occ'] > 1:
+        bad.append(('%d requests were inside the read-modify-write of the session counter at the same time'
+                    % obs['max_occ'], sig('double_occupancy')))
+    if obs['lost']:
+        bad.append(('lost update: a request wrote a counter value computed from a stale read', sig('lost_update')))
+    if obs['thread_errors']:
+        bad.append(('request thread raised %s' % obs['thread_errors'], sig('request_raised')))
+    if any(v.startswith('5') for v in obs['statuses'].values()):
+        bad.append(('a plain session request answered %s' % obs['statuses'], sig('request_failed')))
+    if obs['blocked']:
+        bad.append(('request(s) %s blocked forever on a session lock' % obs['blocked'], sig('blocked_forever')))
+    elif obs['held_by']:
+        bad.append(('after all requests ended, lock objects are still owned by %s' % obs['held_by'],
+                    sig('lock_leak')))
+    c = case.get('cache')
+    if c and c[1] >= 50 and not any(t.startswith('K') for t in toks) and not obs['unfinished'] \
+            and not obs['thread_errors']:
+        if obs['counter'] != c[0] + obs['increments']:
+            bad.append(('final counter %r, expected %d + %d increments' % (obs['counter'], c[0], obs['increments']),
+                        sig('counter')))
+    return bad
+
+
+def check_wsgi(ctx, cases):
+    for case in cases:
+        toks, obs = WSGI.run_case(case)
+        full = dict(case, sched=toks)
+        ctx.case(full, nontrivial=obs['increments'] >= 2 or obs['orphan_acquire'],
+                 key=json.dumps(full, sort_keys=True))
+        ctx.count('wsgi:%s/%s' % (case['mode'], case['where']))
+        ctx.count('wsgi:increments=%d' % obs['increments'])
+        for what, sig in wsgi_oracle(case, toks, obs):
+            ctx.oracle_fail(full, what, sig)
+
+
+def wsgi_systematic(n_preempt_points=14):
+    """Two requests, every single pre-emption point of the first one (the second then runs to its
+    end or until it blocks), for both modes and both places of the read-modify-write."""
+    out = []
+    for mode in ('implicit', 'early'):
+        for where in ('handler', 'stream'):
+            for k in range(1, n_preempt_points):
+                out.append({'kind': 'wsgi', 'n': 2, 'mode': mode, 'where': where, 'cache': [5, 100],
+                            'tbl': False, 'sched': ['0'] * k + ['1'] * 30})
+    return out
+
+
+# ------------------------------------------------------------------------------------------------
 def corpus_cases():
     d = os.path.join(common.CORPUS, PROPERTY)
     out = []
@@ -289,6 +427,10 @@ def run_one(ctx, case, variant, compare=True):
     kind = case.get('kind', 'ram')
     if kind == 'ram':
         check_ram(ctx, [run_ram_case(case)], variant, compare)
+    elif kind == 'req':
+        check_req(ctx, [case], compare)
+    elif kind == 'wsgi':
+        check_wsgi(ctx, [case])
     else:
         raise common.HarnessError('unknown case kind %r' % kind)
 
@@ -305,12 +447,20 @@ def run(ctx):
     for c in corpus_cases():
         run_one(ctx, c, variant)
     ram_stream(ctx, variant, ctx.budget(250, 20000), ctx.budget(250, 20000), ctx.budget(1, 2))
+    check_req(ctx, targeted_plans(ctx.rng))
+    check_req(ctx, [REQ.gen_plan(ctx.rng) for _ in range(ctx.budget(600, 20000))])
+    check_wsgi(ctx, wsgi_systematic())
+    check_wsgi(ctx, [WSGI.gen_case(ctx.rng) for _ in range(ctx.budget(150, 5000))])
 
 
 def search(ctx, around=None):
     _setup_cherrypy()
     variant, _ = RAM.detect_variant()
     ram_stream(ctx, variant, 3000, 3000, 1, compare=False)
+    check_req(ctx, targeted_plans(ctx.rng), compare=False)
+    check_req(ctx, [REQ.gen_plan(ctx.rng) for _ in range(6000)], compare=False)
+    check_wsgi(ctx, wsgi_systematic())
+    check_wsgi(ctx, [WSGI.gen_case(ctx.rng) for _ in range(1500)])
 
 
 def replay(ctx, case):
@@ -325,5 +475,14 @@ def replay(ctx, case):
             print('%3d %-3s impl  %s' % (i, t, snaps[i]))
             if ms and i < len(ms) and ms[i] != snaps[i]:
                 print('        model %s' % ms[i])
+        print('observed:', json.dumps(obs, sort_keys=True))
+    elif case.get('kind') == 'req':
+        r = REQ.run_plan(case)
+        print('impl :', json.dumps(r, sort_keys=True))
+        m = ctx.model([REQ.plan_line(case)])
+        print('model:', m[0] if m else None)
+    elif case.get('kind') == 'wsgi':
+        toks, obs = WSGI.run_case(case)
+        print('schedule:', ' '.join(toks))
         print('observed:', json.dumps(obs, sort_keys=True))
     run_one(ctx, case, variant)
